@@ -33,7 +33,12 @@ RULE = ("scenario = generated ROM (prologue, main loop, interrupt handler, subro
         "machine is halted/off, inside a handler, has a handler frame left after a nested return, a pending "
         "request, a key held, a non-empty/full key FIFO, a timer within 2 cycles of firing or overdue, LCD "
         "drawn or card written, AND the continuation contains a delivery, a power-state change or a logged "
-        "read; distinct = (model, scenario, k).")
+        "read; distinct = (model, scenario, k). Snapshot GENERATIONS are a generated dimension: generation 1 = "
+        "every k (above); per scenario and model additionally a few chains k1<=k2(<=k3): a fresh machine loads "
+        "bundle k1, runs on (gap 0 .. most of the run) and is saved again at k2, a fresh machine loads that "
+        "second-generation bundle (and so on for k3); the first bundle is written by the model itself or by the "
+        "other implementation; reference = the machine that was saved, running on; distinct = (model, scenario, "
+        "origin, chain prefix).")
 
 MODELS = ("py", "rs")
 
@@ -315,10 +320,63 @@ def continuation_depends(A: List[Dict[str, Any]], k: int, cont: int) -> bool:
     return False
 
 
+def judge_restored(model: str, scen: Dict[str, Any], R: List[Dict[str, Any]], dg: Dict[str, Any],
+                   b: Dict[str, Any], case: Dict[str, Any], what: str) -> Tuple[Optional[Violation], List[str]]:
+    """Verdict for one restored machine.  R[0] = observation of the machine that was saved, at the snapshot
+    point; R[1 + i] = its observation after continuation step i (it just keeps running); dg = its diagnostic
+    probes at the snapshot point; b = the fresh machine that loaded the bundle (obs0/diag right after the load,
+    obs per continuation step).  Returns (violation or None, names of the diagnostic probes that differ)."""
+    sub = f"{model}:continuation"
+    ddiff = diff_diag(dg, b["diag"]) if dg else []
+    names0, det0 = diff_obs(R[0], b["obs0"])
+    # bus probes (region boundaries + strided sample of the whole external space) are memory as a program
+    # would read it: an observation, not a diagnostic
+    for key in [d for d in ddiff if d.startswith("bus:")]:
+        ddiff.remove(key)
+        names0.append("mem." + key)
+        det0.append(f"bus reads {key[4:]} orig={dg.get(key)} restored={b['diag'].get(key)} (hash of bytes)")
+    if names0:
+        where = "unrestored: " + "+".join(sorted(set(ddiff) | set(names0)))
+        return Violation(sub, where, "diverges at load", case,
+                         f"{what}; right after load: " + "; ".join(det0[:8]) +
+                         (f"; internal state differing: {ddiff}" if ddiff else "")), ddiff
+    for i, ob in enumerate(b["obs"]):
+        if 1 + i >= len(R):
+            break
+        names, det = diff_obs(R[1 + i], ob)
+        if names:
+            where = "unrestored: " + ("+".join(ddiff) if ddiff else "none-observed")
+            cat = category(names)
+            if cat in ("regs", "mem"):
+                # instruction executed in the diverging step: the Python model delivers a pending
+                # interrupt at the start of a step and then executes the handler's first instruction
+                pc_exec = R[i]["regs"]["PC"]
+                if model == "py" and R[1 + i]["irq"]["total"] != R[i]["irq"]["total"]:
+                    pc_exec = R[1 + i]["irq"]["last"][2] or pc_exec
+                ic = instr_class(scen, pc_exec)
+                if cat == "regs":
+                    # only a device/memory read localises a data divergence; everything else is a
+                    # control-flow or asynchronous effect and gets one generic bucket
+                    if "regs.PC" in names or "regs.S" in names:
+                        cat = "regs (control flow)"
+                    elif ic.startswith("MV A, (") or ic.startswith("MV A, ["):
+                        cat = "regs after " + ic
+                    else:
+                        cat = "regs (data)"
+                else:
+                    cat = "mem after " + ic if ic.startswith("MV [") else "mem"
+            elif cat == "imem":
+                cat = "+".join(sorted(n for n in names if n.startswith("imem.")))
+            return Violation(sub, where, f"diverges later: {cat}", case,
+                             f"{what}; first divergence after continuation step "
+                             f"{i + 1} in {sorted(names)}: " + "; ".join(det[:8]) +
+                             f"; internal state differing right after load: {ddiff}"), ddiff
+    return None, ddiff
+
+
 def judge_model(model: str, scen: Dict[str, Any], points: List[int], cont: int, res: Dict[str, Any],
                 rep: Report, base_case: Dict[str, Any]) -> None:
     A = res["A"]
-    sub = f"{model}:continuation"
 
     def case_for(k: Optional[int]) -> Dict[str, Any]:
         c = dict(base_case)
@@ -351,51 +409,8 @@ def judge_model(model: str, scen: Dict[str, Any], points: List[int], cont: int, 
                                   case_for(k), b["load_err"]))
             rep.case(f"{model}:{scen.get('index')}:{k}" if nt else None, labels + ["load-error"])
             continue
-        ddiff = diff_diag(dg, b["diag"]) if dg else []
-        names0, det0 = diff_obs(A[k], b["obs0"])
-        # bus probes (region boundaries + strided sample of the whole external space) are memory as a program
-        # would read it: an observation, not a diagnostic
-        for key in [d for d in ddiff if d.startswith("bus:")]:
-            ddiff.remove(key)
-            names0.append("mem." + key)
-            det0.append(f"bus reads {key[4:]} orig={dg.get(key)} restored={b['diag'].get(key)} (hash of bytes)")
-        verdict: Optional[Violation] = None
-        if names0:
-            where = "unrestored: " + "+".join(sorted(set(ddiff) | set(names0)))
-            verdict = Violation(sub, where, "diverges at load", case_for(k),
-                                f"snapshot before step {k}; right after load: " + "; ".join(det0[:8]) +
-                                (f"; internal state differing: {ddiff}" if ddiff else ""))
-        else:
-            for i, ob in enumerate(b["obs"]):
-                names, det = diff_obs(A[k + 1 + i], ob)
-                if names:
-                    where = "unrestored: " + ("+".join(ddiff) if ddiff else "none-observed")
-                    cat = category(names)
-                    if cat in ("regs", "mem"):
-                        # instruction executed in the diverging step: the Python model delivers a pending
-                        # interrupt at the start of a step and then executes the handler's first instruction
-                        pc_exec = A[k + i]["regs"]["PC"]
-                        if model == "py" and A[k + 1 + i]["irq"]["total"] != A[k + i]["irq"]["total"]:
-                            pc_exec = A[k + 1 + i]["irq"]["last"][2] or pc_exec
-                        ic = instr_class(scen, pc_exec)
-                        if cat == "regs":
-                            # only a device/memory read localises a data divergence; everything else is a
-                            # control-flow or asynchronous effect and gets one generic bucket
-                            if "regs.PC" in names or "regs.S" in names:
-                                cat = "regs (control flow)"
-                            elif ic.startswith("MV A, (") or ic.startswith("MV A, ["):
-                                cat = "regs after " + ic
-                            else:
-                                cat = "regs (data)"
-                        else:
-                            cat = "mem after " + ic if ic.startswith("MV [") else "mem"
-                    elif cat == "imem":
-                        cat = "+".join(sorted(n for n in names if n.startswith("imem.")))
-                    verdict = Violation(sub, where, f"diverges later: {cat}", case_for(k),
-                                        f"snapshot before step {k}; first divergence after continuation step "
-                                        f"{i + 1} in {sorted(names)}: " + "; ".join(det[:8]) +
-                                        f"; internal state differing right after load: {ddiff}")
-                    break
+        verdict, ddiff = judge_restored(model, scen, A[k:k + cont + 1], dg, b, case_for(k),
+                                        f"snapshot before step {k}")
         if verdict is not None:
             rep.violate(verdict)
             labels.append("diverged")
@@ -407,6 +422,112 @@ def judge_model(model: str, scen: Dict[str, Any], points: List[int], cont: int, 
                       "point": labs, "pc": A[k]["regs"]["PC"], "cycles": A[k]["cycles"],
                       "diverged": verdict is not None}
         rep.case(f"{model}:{scen.get('index')}:{k}" if nt else None, labels, sample)
+
+
+# ---------------------------------------------------------------------------------------------------------
+# snapshot generations: a machine that was itself restored from a snapshot is saved again
+# ---------------------------------------------------------------------------------------------------------
+
+def ensure_root(scen: Dict[str, Any], author: str, k: int, path: str) -> Optional[str]:
+    """First-generation bundle taken before step k by a fresh `author` machine (unless the exploration already
+    left it at `path`).  Returns a save error text or None."""
+    if os.path.exists(path):
+        return None
+    if author == "py":
+        from .. import c16_py
+
+        m = c16_py.PyMachine(scen)
+        m.run(scen["events"], 0, k)
+        e = m.save(path)
+        m.close()
+        return e
+    from .. import c16_rs
+
+    return c16_rs.save_at(scen, k, path)["save_err"]
+
+
+def _lcd_of(o: Optional[Dict[str, Any]]) -> Any:
+    return (o or {}).get("lcd")
+
+
+def check_chains(model: str, scen: Dict[str, Any], chains: List[Dict[str, Any]], cont: int, prefix: str,
+                 rep: Report, base_case: Dict[str, Any], obs_init: Optional[Dict[str, Any]],
+                 roots: Dict[Tuple[str, int], str]) -> None:
+    """Generations >= 2.  For every chain: G1 (fresh) loads the first bundle; G1 runs on, is saved again and keeps
+    running (reference); a fresh G2 loads the second-generation bundle and must be indistinguishable from G1 from
+    the save on -- same verdict code as generation 1, the machine that was saved is the reference.  Likewise
+    G3 against G2.  `roots` maps (author model, k) to a bundle file left by the exploration."""
+    from .. import c16_py, c16_rs
+
+    other = "rs" if model == "py" else "py"
+    for ci, chain in enumerate(chains):
+        pts = [int(x) for x in chain["pts"]]
+        origin = chain.get("origin", "own")
+        author = model if origin == "own" else other
+        root = roots.get((author, pts[0])) or f"{prefix}{model}-root{ci}-{author}-{pts[0]}.pcsnap"
+        cprefix = f"{prefix}{model}-chain{ci}-"
+        base_labels = [f"model:{model}", f"profile:{scen.get('profile')}", f"chain:origin-{origin}"]
+        try:
+            if ensure_root(scen, author, pts[0], root) is not None:
+                rep.case(None, base_labels + ["chain:root-not-saved"])  # generation-1 save errors: main run
+                continue
+            runner = c16_py.run_chain if model == "py" else c16_rs.run_chain
+            res = runner(scen, pts, root, cprefix, cont)
+        finally:
+            _cleanup(cprefix)
+        if res["root_load_err"] is not None:
+            # own bundle: reported by the generation-1 enumeration; foreign bundle: by the cross-load check
+            rep.case(None, base_labels + ["chain:root-load-error"])
+            continue
+        if obs_init is None:
+            if model == "py":
+                m0 = c16_py.PyMachine(scen)
+                obs_init = m0.observe()
+                m0.close()
+            else:
+                obs_init = c16_rs.ops([c16_rs._new("I", scen), {"op": "obs", "id": "I"},
+                                       {"op": "drop", "id": "I"}])[1]["obs"]
+        prev_lcd = _lcd_of(res["root_obs"])
+        for link in res["links"]:
+            g, k = int(link["gen"]), int(link["k"])
+            sub_pts = pts[:g]
+            case = dict(base_case)
+            case.update({"kind": "chain", "model": model, "chains": [{"pts": sub_pts, "origin": origin}]})
+            what = (f"generation-{g} snapshot: machine restored from the bundle(s) taken before step(s) "
+                    f"{sub_pts[:-1]} ({'own' if origin == 'own' else 'first one written by ' + other}), "
+                    f"saved again before step {k}")
+            labels = base_labels + [f"chain:gen{g}"]
+            if sub_pts[-1] == sub_pts[-2]:
+                labels.append("chain:gap0")
+            if link["save_err"] is not None:
+                rep.violate(Violation(f"{model}:save-error", "save_snapshot", _sanitize(str(link["save_err"])),
+                                      case, what + ": " + str(link["save_err"])))
+                rep.case(None, labels + ["save-error"])
+                break
+            R = link["R"]
+            labs = point_labels(model, R[0], link["ref_diag"], obs_init)
+            if _lcd_of(R[0]) != prev_lcd:
+                labels.append("chain:lcd-changed-since-load")
+            prev_lcd = _lcd_of(R[0])
+            nt = bool(labs) and continuation_depends(R, 0, cont)
+            key = f"{model}:{scen.get('index')}:chain:{origin}:" + "-".join(str(x) for x in sub_pts)
+            labels += labs or ["pt:plain-running"]
+            if link["load_err"] is not None:
+                rep.violate(Violation(f"{model}:load-error", "load_snapshot of own bundle",
+                                      _sanitize(link["load_err"]), case, what + ": " + link["load_err"]))
+                rep.case(key if nt else None, labels + ["load-error"])
+                break
+            verdict, ddiff = judge_restored(model, scen, R, link["ref_diag"], link, case, what)
+            if verdict is not None:
+                rep.violate(verdict)
+                labels.append("diverged")
+            elif ddiff:
+                labels.append("latent-internal-diff")
+            sample = None
+            if rep.evaluations % 499 == 7:
+                sample = {"model": model, "scenario": scen.get("index"), "profile": scen.get("profile"),
+                          "chain": sub_pts, "origin": origin, "point": labs, "diverged": verdict is not None}
+            rep.case(key if nt else None, labels, sample)
 
 
 # ---------------------------------------------------------------------------------------------------------
@@ -603,28 +724,47 @@ def check_case(case: Dict[str, Any], rep: Report) -> None:
                 rep.case(f"cross:{scen.get('index')}:{k}", labels)
             return
         models = [case["model"]] if case.get("model") else list(MODELS)
+        chains = list(case.get("chains") or [])
+        if kind == "chain":
+            for model in models:
+                check_chains(model, scen, chains, cont, prefix, rep, base_case, None, {})
+            return
+        own = [c for c in chains if c.get("origin", "own") == "own"]
+        foreign = [c for c in chains if c.get("origin", "own") != "own"]
+        inits: Dict[str, Dict[str, Any]] = {}
         for model in models:
             runner = run_model_py if model == "py" else run_model_rs
             res = runner(scen, points, prefix + model + "-", cont)
             judge_model(model, scen, points, cont, res, rep, base_case)
+            inits[model] = res["A"][0]
+            # generation-1 bundles of this model are still on disk: they are the chains' first generation
+            roots = {(model, k): f"{prefix}{model}-{k}.pcsnap" for k in points}
+            check_chains(model, scen, own, cont, prefix, rep, base_case, inits[model], roots)
             _cleanup(prefix + model + "-")
+        xroots: Dict[Tuple[str, int], str] = {}
         for k in case.get("cross_points") or []:
             vs, labels = cross_check(scen, int(k), prefix, base_case)
             for v in vs:
                 rep.violate(v)
             rep.case(f"cross:{scen.get('index')}:{k}", labels)
+            xroots[("py", int(k))] = f"{prefix}x-py-{k}.pcsnap"
+            xroots[("rs", int(k))] = f"{prefix}x-rs-{k}.pcsnap"
+        # chains whose first bundle was written by the other implementation (the cross-load bundles)
+        for model in models:
+            check_chains(model, scen, foreign, cont, prefix, rep, base_case, inits.get(model), xroots)
     finally:
         _cleanup(prefix)
         _remove_scratch_dir()
 
 
-def _shard(task: Tuple[int, int, int, str, int, int, int]) -> Report:
-    shard, nshards, seed, tier, nscen, n, cont = task
+def _shard(task: Tuple[int, int, int, str, int, int, int, int]) -> Report:
+    shard, nshards, seed, tier, nscen, n, cont, nchains = task
     rep = Report()
     for idx in range(shard, nscen, nshards):
         scen = S.generate(seed, idx, n, cont)
         st_pts = mix32(seed, idx, 0xC055)
         scen["cross_points"] = sorted({st_pts % (n + 1), (st_pts >> 8) % (n + 1), n})
+        scen["chains"] = S.gen_chains(seed, idx, n, nchains, scen["cross_points"])
         check_case(scen, rep)
     if shard == 0:
         check_register_blob(seed, 64 if tier == "quick" else 2000, rep)
@@ -638,12 +778,14 @@ def run(ctx: Ctx) -> Report:
     n = ctx.pick(40, 64)
     cont = ctx.pick(40, 40)
     nshards = 16 if ctx.quick else 64
-    reports = ctx.pmap(_shard, [(i, nshards, ctx.seed, ctx.tier, nscen, n, cont) for i in range(nshards)])
+    nchains = ctx.pick(6, 8)
+    reports = ctx.pmap(_shard, [(i, nshards, ctx.seed, ctx.tier, nscen, n, cont, nchains) for i in range(nshards)])
     rep = ctx.merge_reports(reports)
     rep.rule = RULE
     rep.extra["scenarios"] = nscen
     rep.extra["snapshot_points_per_scenario"] = n + 1
     rep.extra["continuation_steps"] = cont
+    rep.extra["generation_chains_per_scenario_and_model"] = nchains
     rep.assumptions = [
         "a fresh machine of 'the same configuration' = same ROM image, same memory-card image, same timer "
         "periods set through the knobs the maintainers' tests use, same initial S/U/X/Y; then load_snapshot",
@@ -665,6 +807,11 @@ def run(ctx: Ctx) -> Report:
         "load succeeds and carries registers, IMEM, RAM windows, counters, timer schedule, in_interrupt, held "
         "keys/FIFO and LCD; interrupts.pending and the card window are not asserted across models",
         "scenario programs use only decoder-verified templates; instruction semantics are C04/C06's subject",
+        "snapshot generations: a machine that loaded a snapshot and ran on is a reachable machine state like any "
+        "other, so saving IT and loading that bundle into a fresh machine must again not change the future; the "
+        "reference is the saved (restored) machine itself continuing, not run A, so an already known "
+        "first-generation defect does not turn into a differently named one; a machine restored from a bundle "
+        "written by the other implementation is only ever compared with machines of its own model",
     ]
     return rep
 
@@ -680,7 +827,7 @@ def replay(ctx: Ctx, case: Dict[str, Any]) -> List[Violation]:
 def shrink(ctx: Ctx, v: Violation) -> Violation:
     """Single snapshot point is already in the case; shorten the continuation and drop host events."""
     case = copy.deepcopy(v.case)
-    if case.get("kind") == "register-blob" or not case.get("points"):
+    if case.get("kind") == "register-blob" or not (case.get("points") or case.get("kind") == "chain"):
         return v
     key = v.key()
 
@@ -698,7 +845,6 @@ def shrink(ctx: Ctx, v: Violation) -> Violation:
     best = still(case)
     if best is None:
         return v
-    k = case["points"][0]
     for cont in (1, 2, 4, 8, 16):
         if cont >= int(case["k"]):
             break
